@@ -177,6 +177,11 @@ class Repo:
                         self.helpers_inlined = getattr(self, 'helpers_inlined', {})
                         self.helpers_inlined[rel] = ih
                 if os.environ.get('SA_NO_CANON') != '1':
+                    from .canon import fold_unpacked_loop_targets
+                    fu = fold_unpacked_loop_targets(rel, self.modules[rel])
+                    if fu:
+                        self.modules[rel].reindex()
+                if os.environ.get('SA_NO_CANON') != '1':
                     from .canon import inline_fresh_temps
                     it = inline_fresh_temps(rel, self.modules[rel], refnames())
                     if it:
